@@ -41,7 +41,7 @@ func runC03(r *core.Run) {
 }
 
 func c03Sequential(r *core.Run) {
-	nh, nops := pick(r, 5, 30), pick(r, 120, 300)
+	nh, nops := pick(r, 6, 30), pick(r, 120, 300) // six: every backend with and without automatic notification
 	core.Parallel(nh, 8, func(h int) {
 		sig := fmt.Sprintf("seq/h%d", h)
 		if !r.Want(sig) {
@@ -80,7 +80,55 @@ func c03Sequential(r *core.Run) {
 			r.Eval(fmt.Sprintf("%s/op%d", sig, s.NOps), nt)
 		}
 		cfg := sim.GenCfg{Adversarial: true, Restart: true, Internal: true, Fees: []uint{0}}
+		// directed floor: three open quotes; the middle one is paid and its notification delivered. Once
+		// its watcher has written PAID, the stored state of the older and of the younger quote must still
+		// be UNPAID (a watcher that listens to another invoice of the node moves the wrong quote), and
+		// minting them stays refused; then the older one, then the last
+		c03Watchers := func() {
+			var qs []*sim.MintQ
+			for k := 0; k < 3; k++ {
+				if q := s.NewMintQuote(uint64(20+13*k), false); q != nil {
+					qs = append(qs, q)
+				}
+			}
+			if len(qs) < 3 {
+				return
+			}
+			for _, k := range []int{1, 0, 2} {
+				s.PayMintQuote(qs[k])
+				world.Deliver(qs[k].Hash)
+				seen := false
+				for w := 0; w < 200 && !seen; w++ {
+					if st, err := env.MintQuoteDBState(qs[k].Id); err == nil && st == "PAID" {
+						seen = true
+					} else {
+						time.Sleep(2 * time.Millisecond)
+					}
+				}
+				if !seen {
+					r.Count("watcher_did_not_write_PAID_in_400ms", 1) // no verdict: the notification may still be on its way
+					continue
+				}
+				r.Count("watcher_wrote_PAID", 1)
+				for j, o := range qs {
+					if o.Payments > 0 {
+						continue
+					}
+					if st, err := env.MintQuoteDBState(o.Id); err == nil && st != "UNPAID" {
+						r.Violate("seq:notification-moved-another-quote:"+st, fmt.Sprintf("after the invoice of quote %d (of three open ones) was paid and notified, the unpaid quote %d is stored as %s", k, j, st), sig, s.Tail(8))
+					}
+					s.Mint(o, "exact") // refused: unpaid
+				}
+			}
+			for _, q := range qs {
+				s.Mint(q, "exact")
+			}
+		}
+		c03Watchers()
 		for i := 0; i < nops && r.Violations() < 10; i++ {
+			if i == nops/2 {
+				c03Watchers() // again with a longer list of invoices behind the node
+			}
 			switch rng.Intn(5) {
 			case 0, 1:
 				// the life of one quote: poll / mint in every state
